@@ -376,10 +376,29 @@ class Hugr(Mapping[Node, NodeData], Generic[OpVarCov]):
             sub_offset = next(
                 i for i, inp in enumerate(self.linked_ports(src)) if inp == dst
             )
-            self._links.delete_left(_SubPort(src, sub_offset))
         except StopIteration:
             return
-        # TODO make sure sub-offset is handled correctly
+        src_sub = _SubPort(src, sub_offset)
+        dst_sub = self._links.fwd[src_sub]
+        self._links.delete_left(src_sub)
+        # keep the sub-offsets in use on both ports contiguous, otherwise the
+        # links after the deleted one become invisible to `linked_ports`
+        self._close_sub_offset_gap(src_sub)
+        self._close_sub_offset_gap(dst_sub)
+
+    def _close_sub_offset_gap(self, freed: _SubPort[P]) -> None:
+        """Shift the links following `freed` on its port down by one sub-offset."""
+        following = freed.next_sub_offset()
+        if isinstance(freed.port, OutPort):
+            while (partner := self._links.get_right(following)) is not None:
+                self._links.delete_left(following)
+                self._links.insert_left(freed, partner)
+                freed, following = following, following.next_sub_offset()
+        else:
+            while (partner := self._links.get_left(following)) is not None:
+                self._links.delete_right(following)
+                self._links.insert_right(freed, partner)
+                freed, following = following, following.next_sub_offset()
 
     def root_op(self) -> OpVarCov:
         """The operation of the root node.
